@@ -65,6 +65,22 @@ TableVerdict(e) ==
             ~MI!StoredOK(c, en[2], en[3]) \/
             ~MI!SameElement(MI!FromKV(d, en[2], en[3]), MI!Scale(par, MI!MVBlade(d, B)))
        THEN "spelled_blade_differs"
+  ELSE IF e.alen # Pow2(d) THEN "len_of_algebra"
+  \* frame = the generators e_j (bit order), reciprocal frame e^j = sig_j e_j, defined iff no generator is null
+  ELSE IF Len(e.frame) # d \/ \E j \in 1 .. d : ~MI!SameElement(MI!FromKV(d, e.frame[j][1], e.frame[j][2]), MI!MVBlade(d, Pow2(j - 1)))
+       THEN "frame_is_not_the_generators"
+  ELSE IF (\E j \in 1 .. d : c.sig[j] = 0) /\ e.rframe_raised # "ZeroDivisionError" THEN "reciprocal_frame_of_degenerate_metric_must_raise_ZeroDivisionError"
+  ELSE IF (\A j \in 1 .. d : c.sig[j] # 0) /\
+          (e.rframe_raised # "" \/ Len(e.rframe) # d \/
+           \E j \in 1 .. d : ~MI!SameElement(MI!FromKV(d, e.rframe[j][1], e.rframe[j][2]), MI!Scale(c.sig[j], MI!MVBlade(d, Pow2(j - 1)))))
+       THEN "reciprocal_frame_differs"
+  \* blades.grade(gs): the canonical names of the blades of those grades, in canonical order, each the unit blade
+  ELSE IF \E i \in DOMAIN e.bgrade :
+            LET en == e.bgrade[i]
+                want == IndicesForGrades(m, Range(en[1])) IN
+            en[2] # [k \in DOMAIN want |-> m.names[want[k] + 1]] \/ Len(en[3]) # Len(want) \/
+            \E k \in DOMAIN want : ~MI!SameElement(MI!FromKV(d, en[3][k][1], en[3][k][2]), MI!MVBlade(d, want[k]))
+       THEN "blades_of_grade_differ"
   ELSE "ok"
 
 \* a configuration that is NOT admissible must be refused (assert / exception), never built
